@@ -28,11 +28,11 @@ import (
 
 // Fixtures: one valid instance of every governance-gated message (authority is overwritten by the
 // sweep). Message types missing here get a reflection-built fixture.
-func Fixtures(w *chain.World) map[string]sdk.Msg {
+func Fixtures(w *chain.World) map[string][]sdk.Msg {
 	gov := w.Gov
 	u := w.Users
-	fx := map[string]sdk.Msg{}
-	add := func(m sdk.Msg) { fx[sdk.MsgTypeURL(m)] = m }
+	fx := map[string][]sdk.Msg{}
+	add := func(m sdk.Msg) { fx[sdk.MsgTypeURL(m)] = append(fx[sdk.MsgTypeURL(m)], m) }
 	edges := ParamEdges(w)
 	for _, k := range []string{"masterchef.portions_half", "amm.weight_breaking_large", "perpetual.safety_high", "leveragelp.safety_high", "stablestake.rates_huge", "oracle.expiry_huge", "estaking.boost_huge", "tradeshield.zero",
 		"parameter.blocks_per_year_1", "parameter.rewards_data_lifetime_1", "commitment.vesting_huge", "masterchef.multipliers_huge"} {
@@ -64,6 +64,13 @@ func Fixtures(w *chain.World) map[string]sdk.Msg {
 	add(&tokenomicstypes.MsgCreateAirdrop{Authority: gov, Intent: "verif", Amount: 100, Expiry: 1 << 40})
 	add(&tokenomicstypes.MsgUpdateAirdrop{Authority: gov, Intent: "verif", Amount: 100, Expiry: 1 << 40})
 	add(&tokenomicstypes.MsgDeleteAirdrop{Authority: gov, Intent: "verif"})
+	// airdrops recorded in genesis name their claimer as authority: the claimer must not be able to
+	// change or delete its own record
+	for _, al := range w.App.TokenomicsKeeper.GetAllAirdrop(w.ReadCtx()) {
+		add(&tokenomicstypes.MsgUpdateAirdrop{Authority: gov, Intent: al.Intent, Amount: 1 << 40, Expiry: 1 << 40})
+		add(&tokenomicstypes.MsgDeleteAirdrop{Authority: gov, Intent: al.Intent})
+		break
+	}
 	add(&tokenomicstypes.MsgUpdateGenesisInflation{Authority: gov, Inflation: inf, SeedVesting: 1, StrategicSalesVesting: 1})
 	add(&tokenomicstypes.MsgCreateTimeBasedInflation{Authority: gov, StartBlockHeight: 5, EndBlockHeight: 50, Description: "verif", Inflation: inf})
 	add(&tokenomicstypes.MsgUpdateTimeBasedInflation{Authority: gov, StartBlockHeight: 1, EndBlockHeight: 100_000_000, Description: "verif", Inflation: inf})
@@ -146,7 +153,7 @@ func init() {
 			for i := 0; i < len(keys) && !w.Dead; i += len(users) {
 				txs := []*chain.TxRecord{}
 				for j := 0; j < len(users) && i+j < len(keys); j++ {
-					m := mon.CloneMsg(w, fx[keys[i+j]])
+					m := mon.CloneMsg(w, fx[keys[i+j]][0])
 					field := "authority"
 					if strings.HasPrefix(keys[i+j], "/elys.parameter.") {
 						field = "creator"
@@ -169,7 +176,7 @@ func init() {
 			}
 			// gov address as authority, user's signature
 			if !w.Dead {
-				m := mon.CloneMsg(w, fx["/elys.masterchef.MsgTogglePoolEdenRewards"])
+				m := mon.CloneMsg(w, fx["/elys.masterchef.MsgTogglePoolEdenRewards"][0])
 				b := w.Step(5, w.Tx(w.Users[5], m))
 				if !w.Dead && b.Txs[1].OK() {
 					w.Report(chain.Violation{Property: "C17", Rule: "C17.gated_msg_rejected", Scope: sc("msg", "masterchef.MsgTogglePoolEdenRewards", "sender_class", "user_signature_gov_authority"), Relation: "accepted_with_foreign_signature", Detail: "authority=gov signed by a user was accepted"})
